@@ -164,12 +164,12 @@ mut("c19_sources_share_seed_again", "C19", "sempler/semi.py",
     "                        self._data[k][:, i], n[k], random_state=random_state",
     "two source nodes and an integer seed (the defect fixed in e4b741c)")
 mut("c19_non_sources_unseeded_again", "C19", "sempler/semi.py",
-    "        np.random.seed(random_state) if random_state is not None else None\n        # Set sample sizes",
-    "        # Set sample sizes",
+    "        np.random.seed(rng.integers(2**32)) if random_state is not None else None\n",
+    "",
     "a non-source node, a seed, and a perturbed global generator between two calls (fixed in cedd677)")
 mut("c19_seed_truthy", "C19", "sempler/semi.py",
-    "        np.random.seed(random_state) if random_state is not None else None\n        # Set sample sizes",
-    "        np.random.seed(random_state) if random_state else None\n        # Set sample sizes",
+    "        np.random.seed(rng.integers(2**32)) if random_state is not None else None\n",
+    "        np.random.seed(rng.integers(2**32)) if random_state else None\n",
     "seed 0, a non-source node with peer k >= 2, perturbed global generator")
 mut("c19_n_length_unchecked_again", "C19", "sempler/semi.py",
     "            if len(n) != self.e:\n                raise ValueError(\"n must contain one sample size per environment\")\n",
